@@ -110,7 +110,12 @@ CHECKS = {
   technique="Lean 4 locality theorems for top-level items over the xlate-generated parser model + damage oracle on the implementation",
   text=("item_suffix_local (the parse of an item depends on nothing before its first token: runs on pre++suf at |pre| and on suf at 0 agree, for "
         "any DSL program), item_prefix_det (it is determined by the tokens up to maxNth past the token it stops at), glas_lookahead (the generated "
-        "parser looks at most 2 tokens ahead, decided on the regenerated program) (Props/C03.lean). Hence damage confined to one definition cannot "
+        "parser looks at most 2 tokens ahead, decided on the regenerated program), and for the whole module loop C03_conditional: for a file "
+        "pre ++ vic ++ post whose definition(s) vic are damaged into vic' (first three tokens kept), IF the loop over the damaged file, started "
+        "at the victim, comes to stand exactly at the victim's end, THEN the damaged file is parsed into the very same items in front, whatever the "
+        "victim has become, and behind it the items post parses into on its own, moved by the change of length (Props/C03.lean; parseSeg_append, "
+        "parseSeg_shift, parseSeg_prefix). The item-wise view of the loop (every item parsed from a fresh state) is compared with the "
+        "implementation's top-level nodes on ~600 damaged and undamaged files per run. Hence damage confined to one definition cannot "
         "change the others PROVIDED the damaged definition's parse stops at its own end; that containment is NOT proved (it is false on the "
         "current tree in 7 recovery sites, recorded as known findings) and is evaluated on the implementation: files of 2-4 reference-grammar "
         "definitions x victims x up to 1 (3 thorough) token edits from the non-opening classes, every other definition must keep kind and exact "
